@@ -593,6 +593,14 @@ func (a *partA) eval(st *site, h hostile, emit bool) {
 	}
 }
 
+func fmtErrsC16(errs []*actionlint.Error) string {
+	var b strings.Builder
+	for _, e := range errs {
+		fmt.Fprintf(&b, "%s\n", e.Error())
+	}
+	return b.String()
+}
+
 const lineBreaks = "\n\r\u0085\u2028\u2029"
 
 func (a *partA) checkMatcher(ln string, e *actionlint.Error, mk func(what, key, mode, detail string) failure, mode string) {
@@ -1010,6 +1018,38 @@ func main() {
 	sum.Extra["echo_sites_echoing"] = len(a.echoed)
 	sum.Extra["echo_sites_not_echoing"] = silent
 	sum.Extra["workflows"] = nEval
+
+	// part F: the texts of the external tools (shellcheck's JSON message and level, a pyflakes line)
+	// go into messages as well: stand-in tools that print line breaks inside them
+	{
+		td := filepath.Join(*out, "faketools")
+		must(os.MkdirAll(td, 0o755))
+		sc := filepath.Join(td, "shellcheck")
+		must(os.WriteFile(sc, []byte("#!/bin/sh\ncat >/dev/null\nprintf '%s' '[{\"file\":\"-\",\"line\":2,\"endLine\":2,\"column\":1,\"endColumn\":2,\"level\":\"err\\u2028or\",\"code\":1000,\"message\":\"first line\\nsecond\\rthird\\u2029fourth.\"}]'\n"), 0o755))
+		py := filepath.Join(td, "pyflakes")
+		must(os.WriteFile(py, []byte("#!/bin/sh\ncat >/dev/null\nprintf '<stdin>:1:1: undefined\\rname \\342\\200\\250x\\n'\n"), 0o755))
+		src := "on: push\njobs:\n  test:\n    runs-on: ubuntu-latest\n    steps:\n      - run: echo $FOO\n      - run: print(x)\n        shell: python\n"
+		var ob bytes.Buffer
+		lin, err := actionlint.NewLinter(&ob, &actionlint.LinterOptions{Shellcheck: sc, Pyflakes: py, Oneline: true, Color: actionlint.ColorOptionKindNever})
+		must(err)
+		errs, err := lin.Lint("tools.yml", []byte(src), nil)
+		sum.Evaluations++
+		sum.Dist["tool_text_runs"]++
+		ntool := 0
+		for _, e := range errs {
+			if e.Kind == "shellcheck" || e.Kind == "pyflakes" {
+				ntool++
+				if strings.ContainsAny(e.Message, lineBreaks) {
+					sum.OracleFails = append(sum.OracleFails, failure{What: "a diagnostic built from the output of an external tool contains a line break", Key: "c16:newline-in-message:tool=" + e.Kind, Workflow: src, Detail: fmt.Sprintf("%q", e.Message)})
+				}
+			}
+		}
+		if err != nil || ntool != 2 {
+			sum.OracleFails = append(sum.OracleFails, failure{What: fmt.Sprintf("the stand-in tools did not yield one diagnostic each (%d, error %v)", ntool, err), Key: "c16:tool-text:harness", Workflow: src, Detail: fmtErrsC16(errs)})
+		} else if n := strings.Count(ob.String(), "\n"); n != len(errs) {
+			sum.OracleFails = append(sum.OracleFails, failure{What: fmt.Sprintf("-oneline output of %d diagnostics has %d lines", len(errs), n), Key: "c16:newline-in-message:tool-output", Workflow: src, Detail: fmt.Sprintf("%q", ob.String())})
+		}
+	}
 
 	// part E: oneLine (the flattening of library error texts) against its model
 	ef, err := os.Create(filepath.Join(*out, "cases_oneline.txt"))
